@@ -9,6 +9,8 @@
   A1  exhaustion threshold (interval analysis, three partitions of the total height): the bound the counter
       is compared with is 2^t - 1 for t <= 63 and unreachable (u64::MAX) for t >= 64; the `+1` is guarded by it
   S4  lifetime structure (rules of C13-S4): bottom-up, multiplier excludes the level's own size, free = size - used
+      every update of loop-carried state (size recorded, term added) sits on every path through the level loop; A1 also demands that
+      the total height is a sum (no product / multiplication in the increment routine)
   A2  accounting arithmetic cannot fail (the C13 engine run on the three pure functions)
 Not decided: that the reported number equals prod 2^h - counter (a numeric identity).
 """
